@@ -189,9 +189,14 @@ def built (valid : Bytes → Bool) (d : Desc) : HMethod → Option (List Route) 
   | [] => none
   | rs => some rs
 
+/-- duplicates removed, order of first appearance kept -/
+def dedupKeys : List HMethod → List HMethod
+  | [] => []
+  | x :: xs => x :: (dedupKeys xs).filter (fun k => decide (k ≠ x))
+
 /-- its keys, in order of first appearance -/
 def builtKeys (valid : Bytes → Bool) (d : Desc) : List HMethod :=
-  ((allRoutes valid d).map (·.httpMethod)).eraseDups
+  dedupKeys ((allRoutes valid d).map (·.httpMethod))
 
 structure PatState where
   watching : Name → Bool
